@@ -586,7 +586,19 @@ pub fn gen_page(r: &mut Rng, nonce: u64, steps: u32, step_ms: u64) -> EchoReq {
         if let Some(t) = &tag {
             query.push(("tag".to_string(), enc_form(r, t)));
         }
-        canon = json!({"first": tag, "limit": eff});
+        let min = if r.chance(1, 2) { Some(*r.pick(&[0i64, -1, 7, i64::MIN, i64::MAX])) } else { None };
+        if let Some(m) = min {
+            query.push(("min".to_string(), m.to_string()));
+        }
+        let ord = if r.chance(1, 2) { Some(*r.pick(&["Red", "Green", "Blue"])) } else { None };
+        if let Some(o) = ord {
+            query.push(("ord".to_string(), o.to_string()));
+        }
+        let flag = if r.chance(1, 2) { Some(r.chance(1, 2)) } else { None };
+        if let Some(f) = flag {
+            query.push(("flag".to_string(), f.to_string()));
+        }
+        canon = json!({"first": tag, "min": min, "ord": ord, "flag": flag, "limit": eff});
     } else {
         let n = *r.pick(&[0u32, 1, 41, u32::MAX]);
         let s = gen_string(r, 20);
